@@ -78,6 +78,10 @@ pub struct Hold {
 
 #[derive(Clone, Debug, Serialize, Deserialize, PartialEq)]
 pub struct Schedule {
+    /// exact choices (index into the eligible set, clamped), consumed before `prefix`; used by the
+    /// bounded-exhaustive enumerations
+    #[serde(default)]
+    pub exact: Vec<u8>,
     pub prefix: Vec<u8>,
     pub tail: Tail,
     pub holds: Vec<Hold>,
@@ -85,7 +89,7 @@ pub struct Schedule {
 
 impl Default for Schedule {
     fn default() -> Self {
-        Self { prefix: vec![], tail: Tail::First, holds: vec![] }
+        Self { exact: vec![], prefix: vec![], tail: Tail::First, holds: vec![] }
     }
 }
 
@@ -306,6 +310,9 @@ pub struct RunStats {
     pub idle_marks: u64,
     pub holds_fired: u64,
     pub trace_hash: u64,
+    /// width of the eligible set at every decision with more than one eligible thread
+    #[serde(default)]
+    pub decision_widths: Vec<u8>,
 }
 
 #[derive(Clone, Debug, PartialEq, Serialize, Deserialize)]
@@ -331,6 +338,7 @@ struct Ctl {
     tokens: HashMap<usize, bool>,
     schedule: Schedule,
     prefix_pos: usize,
+    exact_pos: usize,
     rng: u64,
     rr_last: usize,
     pct_change_points: Vec<u64>,
@@ -363,6 +371,7 @@ impl Ctl {
             tokens: HashMap::new(),
             schedule: Schedule::default(),
             prefix_pos: 0,
+            exact_pos: 0,
             rng: 1,
             rr_last: 0,
             pct_change_points: Vec::new(),
@@ -485,8 +494,15 @@ impl Ctl {
                 return;
             }
             self.stats.decisions += 1;
+            if el.len() > 1 {
+                self.stats.decision_widths.push(el.len().min(255) as u8);
+            }
             let choice = if el.len() == 1 {
                 el[0]
+            } else if self.exact_pos < self.schedule.exact.len() {
+                let c = self.schedule.exact[self.exact_pos] as usize;
+                self.exact_pos += 1;
+                el[c.min(el.len() - 1)]
             } else if self.prefix_pos < self.schedule.prefix.len() {
                 let c = self.schedule.prefix[self.prefix_pos] as usize;
                 self.prefix_pos += 1;
@@ -1185,4 +1201,36 @@ pub fn controller() -> &'static Controller {
         grevm::verif::install(c);
     });
     c
+}
+
+
+/// Depth-first enumeration of every schedule of a (small, deterministic) scenario: `run` executes
+/// the scenario under the given exact choice list and returns the decision widths it met; returns
+/// the number of schedules explored and whether the space was exhausted within `cap`.
+pub fn enumerate_schedules(cap: usize, mut run: impl FnMut(&Schedule) -> Option<Vec<u8>>) -> (usize, bool) {
+    let mut choices: Vec<u8> = Vec::new();
+    let mut explored = 0usize;
+    loop {
+        let s = Schedule { exact: choices.clone(), prefix: vec![], tail: Tail::First, holds: vec![] };
+        let Some(widths) = run(&s) else { return (explored, false) };
+        explored += 1;
+        if explored >= cap {
+            return (explored, false);
+        }
+        // the run took choice 0 at every decision beyond the given prefix
+        choices.resize(widths.len(), 0);
+        // backtrack to the last decision that still has an untried alternative
+        let mut i = choices.len();
+        loop {
+            if i == 0 {
+                return (explored, true);
+            }
+            i -= 1;
+            if (choices[i] as usize) + 1 < widths[i] as usize {
+                choices[i] += 1;
+                choices.truncate(i + 1);
+                break;
+            }
+        }
+    }
 }
